@@ -572,7 +572,7 @@ func ruleRunActionGuards(r *Run, rule string) {
 		// skip the test-hook path
 		hook := false
 		for _, e := range p.Ev {
-			if e.Kind == EvBranch && e.Cond != nil && e.Taken && strings.Contains(ExprStr(e.Cond), "testActionRunner != nil") {
+			if Establishes(info, e, fieldMatcher(info, "", "testActionRunner"), "nil", false) {
 				hook = true
 			}
 		}
